@@ -13,11 +13,12 @@
 (* time ("starting with the next Message that is actually sent").            *)
 (*                                                                          *)
 (* Receiver = "by_level": the codec is looked up with the level of the       *)
-(* incoming frame (MessageIOGateway::UnflattenHeaderAndMessage).             *)
-(* Receiver = "any_level": GetReceiveCodec() as coded, used by               *)
-(* TemplatingMessageIOGateway: every zlib level is mapped to 6, the codec    *)
-(* object is never re-created - known finding F41: HistoryInSync fails as    *)
-(* soon as the sender uses two different levels.                             *)
+(* incoming frame (MessageIOGateway::UnflattenHeaderAndMessage, and          *)
+(* GetReceiveCodec() since the repair of F41, commit 3fb55a8).               *)
+(* Receiver = "any_level": GetReceiveCodec() as it was, used by              *)
+(* TemplatingMessageIOGateway: every zlib level mapped to 6, the codec       *)
+(* object never re-created - finding F41: HistoryInSync fails as soon as     *)
+(* the sender uses two different levels (kept as a wrong variant).           *)
 (***************************************************************************)
 EXTENDS Naturals, Sequences, TLC
 
